@@ -1316,6 +1316,15 @@ var sharedChainProp = vh.Define("C18", "shared-chain", func(c SharedChainCase, r
 				return
 			}
 		}
+		// ... and it still verifies (C06: "stays true ... for any sequence of signers"): the exchange is
+		// covered by the shared chain's leaf, and every vouched subset's signature checks out
+		if ver, verr := signature.NewVerifier(o.b.Signatures, time.Unix(1_700_000_100, 0), o.b.Version); verr != nil {
+			r.Failf("no-longer-verifies", "bundle %d verified when it was signed, but after OTHER bundles were signed with the same certificate chain value NewVerifier fails: %v", i, verr)
+			return
+		} else if res, xerr := ver.VerifyExchange(o.b.Exchanges[0]); xerr != nil || res == nil {
+			r.Failf("no-longer-verifies", "bundle %d: after other bundles were signed with the same certificate chain value its exchange no longer verifies (result %v, error %v)", i, res, xerr)
+			return
+		}
 		leaves := [][]byte{sharedDER[0], o.want[len(o.want)-1]}
 		for k, vs := range o.b.Signatures.VouchedSubsets {
 			if k >= len(leaves) || vs.Authority >= uint64(len(o.b.Signatures.Authorities)) || !bytes.Equal(o.b.Signatures.Authorities[vs.Authority].Cert.Raw, leaves[k]) {
